@@ -181,17 +181,19 @@ Definition C19_model_ok := Rdr_model_ok.
 Definition info_matches (m : masks) (hsel : option Z) (x : info) : bool :=
   ss_in m (f_ss x) && vs_in m (f_vs x) && is_in m (f_is x) &&
   match hsel with Some h => f_inst x =? h | None => true end.
+Fixpoint take_z {A} (n : Z) (l : list A) : list A :=
+  match l with [] => [] | x :: t => if n <=? 0 then [] else x :: take_z (n - 1) t end.
 Definition firstn_z (n : Z) {A} (l : list A) : list A :=
-  if n <? 0 then l else firstn (Z.to_nat n) l.
+  if n <? 0 then l else take_z n l.
 Definition gen_of (x : info) : Z := f_dgc x + f_nwgc x.
-Definition ranks_ok (l : list info) : bool :=
+Definition ranks_ok (byrecv : bool) (l : list info) : bool :=
   (fix go (t : list info) : bool :=
      match t with
      | [] => true
      | x :: t' =>
          (f_srank x =? later_same (f_inst x) t') &&
          (f_grank x =? (fold_left (fun acc y => if f_inst y =? f_inst x then gen_of y else acc) l 0) - gen_of x) &&
-         (0 <=? f_grank x) && (f_grank x <=? f_agrank x) && go t'
+         (if byrecv then (0 <=? f_grank x) && (f_grank x <=? f_agrank x) else true) && go t'
      end) l &&
   forall_pairs (fun x y => if f_inst x =? f_inst y then (f_agrank x + gen_of x =? f_agrank y + gen_of y) else true) l.
 (* the collection expected from the state observed just before the op *)
@@ -202,11 +204,11 @@ Definition same_samples (a b : list info) : bool :=
                        vstate_eqb (f_vs x) (f_vs y) && istate_eqb (f_is x) (f_is y) &&
                        (f_dgc x =? f_dgc y) && (f_nwgc x =? f_nwgc y) && ts_eqb (f_ts x) (f_ts y) &&
                        (f_pub x =? f_pub y) && Bool.eqb (f_valid x) (f_valid y) && (f_agrank x =? f_agrank y)) a b.
-Definition coll_op_ok (o : op) (e : ev) : bool :=
+Definition coll_op_ok (byrecv : bool) (o : op) (e : ev) : bool :=
   match o, e with
   | OpRead max m hsel, EvColl pre c | OpTake max m hsel, EvColl pre c =>
       match c with
-      | CollOk l => same_samples l (expected_coll (infos pre) max m hsel) && ranks_ok l &&
+      | CollOk l => same_samples l (expected_coll (infos pre) max m hsel) && ranks_ok byrecv l &&
                     negb (Nat.eqb (length l) 0)
       | NoData => Nat.eqb (length (expected_coll (infos pre) max m hsel)) 0
       | BadParameter => match hsel with Some h => true | None => false end
@@ -232,7 +234,7 @@ Fixpoint effects_ok (tr : list (op * ev)) (final : list info) : bool :=
   | _ :: t => effects_ok t final
   end.
 Definition C20_oracle_ok (c : Rdr_case) : bool :=
-  forallb (fun oe => coll_op_ok (fst oe) (snd oe)) (trace c) &&
+  forallb (fun oe => coll_op_ok (negb (q_bysrc (rc_q c))) (fst oe) (snd oe)) (trace c) &&
   effects_ok (trace c) (infos (rc_probe c)).
 Definition C20_known (c : Rdr_case) : N := 0%N.
 Definition C20_model_ok := Rdr_model_ok.
@@ -337,10 +339,31 @@ Fixpoint multi_writer_unreg (sp : list (Z * list Z)) (tr : list (op * ev)) : boo
       end
   | _ :: t => multi_writer_unreg sp t
   end.
-Definition has_nonstored (c : Rdr_case) : bool :=
-  existsb (fun e => match e with EvAdd NotAdded | EvAdd (Rejected _ _) => true | _ => false end) (rc_evs c).
+(* a change that was NOT stored (NotAdded / Rejected) would, had it been stored, have
+   changed the instance state of the DDS automaton (or created the instance) *)
+Fixpoint nonstored_state_change (sp : list sinst) (tr : list (op * ev)) : bool :=
+  match tr with
+  | [] => false
+  | (OpAdd w h k _ _ _, EvAdd a) :: t =>
+      let i0 := match sp_find h sp with Some i => i | None => mkSI h IAlive VNew 0 0 [] end in
+      let i1 := spec_change i0 w k in
+      match a with
+      | Added => nonstored_state_change (sp_set i1 sp) t
+      | NotAdded | Rejected _ _ =>
+          negb (istate_eqb (si_state i1) (si_state i0)) ||
+          (match k with
+           | KDisposed | KUnregistered | KDisposedUnregistered => istate_eqb (si_state i0) IAlive
+           | KAlive => negb (istate_eqb (si_state i0) IAlive)
+           | KAliveFiltered => false end) ||
+          match sp_find h sp with None => true | Some _ => false end ||
+          nonstored_state_change sp t
+      | _ => nonstored_state_change sp t
+      end
+  | _ :: t => nonstored_state_change sp t
+  end.
 Definition C22_known (c : Rdr_case) : N :=
-  if has_nonstored c then 2%N else if multi_writer_unreg [] (trace c) then 1%N else 0%N.
+  if nonstored_state_change [] (trace c) then 2%N
+  else if multi_writer_unreg [] (trace c) then 1%N else 0%N.
 Definition C22_model_ok := Rdr_model_ok.
 
 (* ---------- C24: exclusive ownership ---------- *)
@@ -381,8 +404,12 @@ Definition C24_oracle_ok (c : Rdr_case) : bool :=
     (* instance-state changes only through stored (owner) changes *)
     (has_filtered c || spec_walk (mkSP [] []) (trace c) (infos (rc_probe c)))
   else true.
+(* the accept/reject decisions are never excused; only the instance-state clause has
+   recorded deviations *)
 Definition C24_known (c : Rdr_case) : N :=
-  if has_nonstored c then 1%N else if multi_writer_unreg [] (trace c) then 2%N else 0%N.
+  if negb (own_walk (rc_q c) (mkOS [] []) (trace c)) then 0%N
+  else if nonstored_state_change [] (trace c) then 1%N
+  else if multi_writer_unreg [] (trace c) then 2%N else 0%N.
 Definition C24_model_ok := Rdr_model_ok.
 
 (* ---------- C25: time-based filter ---------- *)
@@ -438,5 +465,5 @@ Definition keep_last_evicts (c : Rdr_case) : bool :=
   match q_depth (rc_q c) with Some _ => true | None => false end.
 Definition C25_known (c : Rdr_case) : N :=
   if out_of_order [] (trace c) then 1%N
-  else if take_before_add false (rc_ops c) then 2%N else 0%N.
+  else if take_before_add false (rc_ops c) || keep_last_evicts c then 2%N else 0%N.
 Definition C25_model_ok := Rdr_model_ok.
